@@ -345,6 +345,21 @@ def o7b_unroll_concrete(check: Check, repo: Repo) -> None:
                  finding=Finding("O7", construct, sig, f"{sig}: {bad[0] if bad else ''} ({len(bad)} of {n})", {"witness": bad[0] if bad else ""}))
 
 
+def o15_pipeline(check: Check, repo: Repo) -> None:
+    """Optimizer.optimize as a whole on model grammars (sa/optsem.py)."""
+    from ..optsem import check_pipeline
+
+    construct = f"{OPT}::Optimizer.optimize"
+    n, bad = check_pipeline(repo, construct)
+    check.count("pipeline_model_grammars", n)
+    check.oblige("O15", construct, f"on all {n} model grammars the driver rewrites nothing it was given, keeps atomic_only passes out of rules with trivia, keeps tags, and fuses SKIP exactly for a lone silent trivia rule" if not bad else f"{len(bad)} findings on {n} model grammars (per category below)", True, sample=True)
+    cats: dict[str, list[str]] = {}
+    for cat, msg in bad:
+        cats.setdefault(cat, []).append(msg)
+    for cat, msgs in sorted(cats.items()):
+        check.oblige("O15", construct, cat, False, sample=True, finding=Finding("O15", construct, cat, f"{cat}: e.g. {msgs[0]} ({len(msgs)} of {n} model grammars)", {"witness": msgs[0]}))
+
+
 def o13_fold_flags(check: Check, repo: Repo) -> None:
     """A squashed choice must fold case exactly like the `^"..."` literal it replaces: CIString compiles with re.I
     under the regex module's default VERSION0 (simple folding); a global VERSION1 / FULLCASE on the squashed
@@ -381,7 +396,7 @@ def o13_fold_flags(check: Check, repo: Repo) -> None:
 
 def run(tier: str) -> Check:
     check = Check("C02", tier, EXPLANATION)
-    check.rules = ["O1", "O2", "O3", "O4", "O5", "O6(TERM)", "O7", "O8", "O9", "O10", "O11", "O12", "O13", "O14"]
+    check.rules = ["O1", "O2", "O3", "O4", "O5", "O6(TERM)", "O7", "O8", "O9", "O10", "O11", "O12", "O13", "O14", "O15"]
     check.assumptions = [
         "NOT decided: equivalence of the regex built by build_optimized_pattern with the choice it replaces beyond O2 and C12's fragment rules, and of SkipUntil's search with the loop it replaces in atomic context — equalities of languages of run-time constructed objects",
         "the unrolled forms are those of the specification table shared with C03/C04",
@@ -392,6 +407,7 @@ def run(tier: str) -> Check:
     o12_squash_semantics(check, repo, tier)
     o13_fold_flags(check, repo)
     o14_inline_semantics(check, repo)
+    o15_pipeline(check, repo)
     o1_unchecked(check, repo)
     o2_order(check, repo, tier)
     o3_trivia(check, repo)
@@ -406,6 +422,7 @@ def run(tier: str) -> Check:
     check.floor("squash_model_choices_rewritten", 500)
     check.floor("squash_compile_sites", 2)
     check.floor("inline_model_references", 40)
+    check.floor("pipeline_model_grammars", 25)
     check.floor("optional_helper_call_sites", 7)
     check.floor("unroll_arms", 5)
     check.floor("default_steps", 5)
